@@ -19,9 +19,30 @@ pub const GEN_PERIODIC: usize = 9;
 pub const GEN_ALT: usize = 10;
 pub const GEN_NEARCLASS: usize = 11;
 pub const GEN_BLANKS: usize = 12;
-/// 13 generators: coprime with every other modulus the workloads rotate on (2, 3, 4, 5, 8, 9, 16)
-pub const GEN_COUNT: usize = 13;
-pub const GEN_NAMES: [&str; 13] = ["random", "low", "high", "pad-lookalike", "mode-indicator-lookalike", "ramp", "sparse", "real-world-tokens", "zero-runs", "periodic", "alternating-extremes", "narrower-class-in-disguise", "blank-padded"];
+pub const GEN_LATIN1: usize = 13;
+pub const GEN_UTF8MIX: usize = 14;
+pub const GEN_ESCAPED: usize = 15;
+pub const GEN_REPEAT: usize = 16;
+/// 17 generators: coprime with every other modulus the workloads rotate on (2, 3, 4, 5, 8, 9, 16)
+pub const GEN_COUNT: usize = 17;
+pub const GEN_NAMES: [&str; 17] = [
+    "random", "low", "high", "pad-lookalike", "mode-indicator-lookalike", "ramp", "sparse", "real-world-tokens", "zero-runs", "periodic", "alternating-extremes", "narrower-class-in-disguise", "blank-padded",
+    "latin1-text-as-utf8", "utf8-multibyte-mix", "escaped-text", "repeated-token",
+];
+
+/// UTF-8 text of exactly `len` bytes drawn from `chars` (padded with ASCII letters where a character no longer fits)
+fn utf8_exact(len: usize, chars: &[char], rng: &mut Rng) -> Vec<u8> {
+    let mut out = String::new();
+    while out.len() < len {
+        let c = *rng.pick(chars);
+        if out.len() + c.len_utf8() <= len {
+            out.push(c);
+        } else {
+            out.push((b'a' + rng.below(26) as u8) as char);
+        }
+    }
+    out.into_bytes()
+}
 
 /// What people actually put into QR codes, plus byte sequences with a meaning of their own in some
 /// layer (byte order marks, GS1 / ECI / AIM escapes, control characters, Shift-JIS and UTF-8
@@ -240,6 +261,31 @@ pub fn gen_payload(class: usize, len: usize, gen: usize, seed: u64) -> Vec<u8> {
                 *x = blank(&mut rng);
             }
             p
+        }
+        // byte-class content that is TEXT in some encoding: Latin-1 letters written as UTF-8 (every character at or
+        // below U+00FF: a transcoder would shorten it), mixed 2/3/4-byte characters, escaped text, one token repeated.
+        // For the narrower classes: digit groups / alphanumeric tokens repeated with a separator of the class.
+        GEN_LATIN1 if class == 2 => utf8_exact(len, &['é', 'è', 'ü', 'ö', 'ß', 'ñ', 'ç', 'Å', 'ø', '£', '§', '°', '½', 'ÿ', '\u{a0}', 'e', 'r', 'n', ' ', 'a'], &mut rng),
+        GEN_UTF8MIX if class == 2 => utf8_exact(len, &['é', '中', '文', '🚀', 'Ω', 'ж', '€', '\u{200b}', '\u{feff}', 'a', '1', ' '], &mut rng),
+        GEN_ESCAPED if class == 2 => {
+            let toks: [&[u8]; 12] = [b"%20", b"%C3%A9", b"%2F", b"\\n", b"\\u00e9", b"&amp;", b"&#233;", b"+", b"=", b"a", b"b", b"1"];
+            let mut p = Vec::with_capacity(len + 8);
+            while p.len() < len {
+                let t: &[u8] = toks[rng.below(toks.len())];
+                p.extend_from_slice(t);
+            }
+            p.truncate(len);
+            p
+        }
+        GEN_LATIN1 | GEN_UTF8MIX | GEN_ESCAPED | GEN_REPEAT => {
+            let tl = 2 + rng.below(7);
+            let tok: Vec<u8> = (0..tl).map(|_| alphabet(class, rng.below(span))).collect();
+            let sep = match class {
+                0 => b'0',
+                1 => *rng.pick(b" -/:."),
+                _ => *rng.pick(b",;|\n\t "),
+            };
+            (0..len).map(|i| if i % (tl + 1) == tl { sep } else { tok[i % (tl + 1)] }).collect()
         }
         _ => (0..len).map(|_| alphabet(class, rng.below(span))).collect(),
     };
